@@ -127,7 +127,7 @@ func (s *Solver) Pop() {
 	s.levels = s.levels[:n]
 }
 
-const cutSize = 120
+const cutSize = 30
 
 // define emits declarations/definitions for every node under t not yet known to the solver.
 func (s *Solver) define(t *Term) {
